@@ -815,6 +815,92 @@ FIXTURES = {
 }
 
 
+NARROW_MAX = {'uint8_t': 0xff, 'uint16_t': 0xffff, 'uint32_t': 0xffffffff,
+              'int8_t': 0x7f, 'int16_t': 0x7fff, 'int32_t': 0x7fffffff}
+WIDE = ('uint64_t', 'int64_t', 'size_t', 'unsigned long', 'long')
+
+
+def r4_6(ctx):
+    """a constant is emitted in a narrower operand only under a test that it fits"""
+    from .. import paths
+    prog = ctx.prog
+    n_casts = 0
+    for f in prog.fns():
+        if f.file != 'libyara/parser.c' and not ctx.fixture:
+            continue
+        wide = {}
+        for d in f.all_nodes():
+            if d['k'] == 'decl' and d.get('t') in WIDE:
+                wide[d['name']] = d['t']
+        for p_ in f.params:
+            if p_.get('type') in WIDE:
+                wide[p_['name']] = p_['type']
+        casts = []
+        for n in f.all_nodes():
+            if n['k'] == 'cast' and n.get('t') in NARROW_MAX and not f.macros(n):
+                x = cu.strip_casts(f, f.kid(n, 0))
+                if x is not None and x['k'] == 'ref' and x['name'] in wide:
+                    casts.append((n, x['name']))
+        if not casts:
+            continue
+        ids = {c[0]['i']: c for c in casts}
+        bad = {}
+
+        def step(n, facts):
+            if n['i'] in ids:
+                c, v = ids[n['i']]
+                ub = min([x[2] for x in facts if x[0] == 'ub' and x[1] == v] or [None], key=lambda z: (z is None, z))
+                if ub is None or ub > NARROW_MAX[c['t']]:
+                    bad.setdefault(n['i'], ub)
+            if n['k'] == 'bin' and n['op'] == '=' :
+                l = cu.strip_casts(f, f.kid(n, 0))
+                if l is not None and l['k'] == 'ref' and l['name'] in wide:
+                    return frozenset(x for x in facts if x[1] != l['name'])
+            if n['k'] == 'ret':
+                return None
+            return facts
+
+        def edge(b, term, cond, idx, succ, facts):
+            pol = paths.branch_polarity(f, term, idx)
+            if pol is None or cond is None:
+                return facts
+            c, p2 = paths.normalise_cond(f, cond, pol)
+            if c is None or c['k'] != 'bin' or c['op'] not in ('<', '<=', '>', '>=', '=='):
+                return facts
+            l = cu.strip_casts(f, f.kid(c, 0))
+            k = cu.const_of(cu.strip_casts(f, f.kid(c, 1)))
+            if l is None or l['k'] != 'ref' or l['name'] not in wide or k is None:
+                return facts
+            op = c['op']
+            if not p2:
+                op = {'<': '>=', '<=': '>', '>': '<=', '>=': '<', '==': '!='}[op]
+            ub = None
+            if op == '<=':
+                ub = k
+            elif op == '<':
+                ub = k - 1
+            elif op == '==':
+                ub = k
+            if ub is None:
+                return facts
+            return frozenset(facts) | {('ub', l['name'], ub)}
+        try:
+            paths.explore(f, set(), step, edge, max_states=2000)
+        except paths.Budget:
+            continue
+        for i, (c, v) in sorted(ids.items()):
+            n_casts += 1
+            k = sorted(ids).index(i)
+            ok = i not in bad
+            ctx.ob('R4.6', '%s:(%s)%s#%d:fits' % (f.name, c['t'], v, k), ok, f.loc(c),
+                   '%s is narrowed to %s only where it was tested to be <= 0x%x' % (v, c['t'], NARROW_MAX[c['t']])
+                   if ok else
+                   '%s is narrowed to %s on a path that only established %s <= %s: a value above '
+                   '0x%x is emitted truncated (the literal evaluates to something else)' % (
+                       v, c['t'], v, ('0x%x' % bad[i]) if bad[i] is not None else 'nothing', NARROW_MAX[c['t']]))
+    ctx.count('narrowing_emissions', n_casts)
+
+
 def run(ctx):
     r4_1_2(ctx)
     ctx.floor('R4.1', 60)
@@ -831,3 +917,5 @@ def run(ctx):
     for o in sub.obls:
         ctx.ob('R4.5', o['key'], o['ok'], o['where'], o['detail'], o['data'])
     ctx.floor('R4.5', 3)
+    r4_6(ctx)
+    ctx.floor('R4.6', 3)
